@@ -55,6 +55,8 @@ type Placed struct {
 	Time, Num uint64
 	Published bool
 	Version   uint64
+	// Unknown: the protocol client cannot serve Version (the lookup fails): the operation cannot be interpreted and is ignored
+	Unknown bool
 }
 
 // Ref is the canonical reference of a published placement.
@@ -81,6 +83,9 @@ func (pl Placed) Anchored(suffix string) *operation.AnchoredOperation {
 // Abstract returns the abstract operation for the reference model.
 func (pl Placed) Abstract() *sidetree.Op {
 	a := pl.Op.Abs
+	if pl.Unknown {
+		a.ParseOK = false
+	}
 	a.Time, a.Num, a.Published, a.Ref = pl.Time, pl.Num, pl.Published, pl.Ref()
 	if pl.Published {
 		a.Equiv = []string{"eq-" + pl.Ref()}
